@@ -409,6 +409,9 @@ def caller_correspondence(ctx):
     orig_setup = sm._Smooth._setup_smooth
 
     def spy_k(y, data_len, half_window):
+        if isinstance(data_len, np.ndarray) or isinstance(half_window, np.ndarray):
+            rec.append(('karr', len(y)))     # numba cannot type this call: TypingError, no compiled code runs
+            raise _Reached()
         rec.append(('k', len(y), int(data_len), int(half_window)))
         # never enter compiled code with unchecked arguments inside the harness process
         try:
@@ -466,6 +469,33 @@ def caller_correspondence(ctx):
                                          f'(len y, data_len, half_window) = {r[1:]}',
                                          {'kind': 'public', 'method': 'peak_filling', 'N': N,
                                           'kw': {'sections': sections, 'half_window': hw, 'max_iter': max_iter}})
+        # `sections` as a sequence of split indices: kind (ndarray / int) and value of data_len, len(y)
+        for N in (12, 40):
+            for sq in ([N // 4, N // 2, 3 * N // 4], [N // 2] * 4, [0, 0, 1, N // 4], [0, 1, N // 2, N - 1], [N - 1],
+                       [N // 2], list(range(N)), [3 * N // 4, N // 4], [N // 3, N // 3], [0], [1, 2, 3, 4, 5, 6]):
+                for cont in (list, tuple, np.array):
+                    del rec[:]
+                    y = np.sin(np.arange(N) / 3.0) + 2
+                    with warnings.catch_warnings():
+                        warnings.simplefilter('ignore')
+                        try:
+                            Baseline(np.arange(N, dtype=float)).peak_filling(y, sections=cont(sq), half_window=2, max_iter=3)
+                        except Exception:  # noqa
+                            pass
+                    k = len(sq)
+                    uniq = len(set([0] + list(sq) + [N]))
+                    ctx.case(('pf-seq', N, tuple(sq), cont.__name__), True, kind='caller:peak_filling-sequence')
+                    if any(r[0] == 'karr' for r in rec):
+                        lits.append('negb pf_seq_data_len_is_int')
+                    for r in [r for r in rec if r[0] == 'k']:
+                        lits.append(f'pf_seq_data_len_is_int && ((pf_seq_data_len {k} {uniq} {N}) =? {r[2]}) && '
+                                    f'((pf_seq_y_len {k} {uniq} {r[1] - (uniq - 1)} 0) =? {r[1]})')
+                        if not (r[1] >= r[2] >= 1):
+                            ctx.fail('peak_filling:sequence:data_len', f'peak_filling(N={N}, sections={cont.__name__}({sq})) '
+                                     f'called the kernel with len(y)={r[1]} < data_len={r[2]}',
+                                     {'kind': 'public', 'method': 'peak_filling', 'N': N,
+                                      'kw': {'sections': {'__seq__': 'list', 'v': list(sq)}, 'half_window': 2, 'max_iter': 3}})
+                            break
     finally:
         sm._directional_min_moving_avg = orig_k
         sm._Smooth._setup_smooth = orig_setup
@@ -622,6 +652,17 @@ def oracle_jobs(ctx, budget):
             for hw in (None, 1, 3, N):
                 for mi in (1, 5):
                     jobs.append(('peak_filling', N, {'sections': sections, 'half_window': hw, 'max_iter': mi}, 'uniform'))
+    # peak filling with `sections` as a sequence of split indices (list / tuple / ndarray, class and functional)
+    for N in (12, 40):
+        seqs = [[N // 4, N // 2, 3 * N // 4], [N // 2] * 4, [0, 0, 1, N // 4], [0, 1, N // 2, N - 1], [N - 1],
+                [N // 2], [], list(range(N)), [3 * N // 4, N // 4, N // 2], [1, N], [N // 3, N // 3], [0], [-1, 3],
+                [1, 2, 3, 4, 5, 6]]
+        for sq in seqs:
+            for cont in ('list', 'tuple', 'array'):
+                for meth in ('peak_filling', 'F:smooth.peak_filling'):
+                    for hw in (None, 2):
+                        jobs.append((meth, N, {'sections': {'__seq__': cont, 'v': sq}, 'half_window': hw,
+                                               'max_iter': 3}, 'uniform'))
     # P-spline family and other spline methods that use the kernels
     for N in [n for n in small if n >= 2]:
         for degree in (0, 1, 2, 3, 5):
@@ -701,6 +742,7 @@ def job_key(job, status):
 def oracle(ctx, budget):
     jobs = oracle_jobs(ctx, budget)
     ctx.rng.shuffle(jobs)
+    jobs = [j for j in jobs if '__seq__' in json.dumps(j[2])] + [j for j in jobs if '__seq__' not in json.dumps(j[2])]
     t0 = time.time()
     nproc = min(14, os.cpu_count() or 4)
     found = 0
